@@ -563,6 +563,12 @@ def commit_program(rng, ncases, lanes=ALL_LANES, big=False, algos=("sha256", "sh
         if key:
             prog["steps"].append({"op": "metadata", "lane": rng.choice(lanes), "key": key})
         ch = rng.choice(chunkings(rng, n, big))
+        if isinstance(opts.get("size"), int) and 0 < opts["size"] < n and rng.random() < 0.5:
+            # one chunk ends EXACTLY at the declared size (the preallocated file / map is full to
+            # the byte) and more data follows in further calls
+            s_ = opts["size"]
+            a_, b_ = rng.randrange(0, s_ + 1), rng.randrange(s_ + 1, n + 1)
+            ch = [c_ for c_ in [(0, a_), (a_, s_), (s_, b_), (b_, n)] if c_[0] < c_[1]]
         ws_ = write_steps(rng, prog, lane, d, n, algo, key, "opts", ch, opts, alias="w%d" % c,
                           explicit_algo=not noalgo)
         if sk == "right" and not big and rng.random() < 0.5:
@@ -1213,7 +1219,9 @@ def index_damage_program(rng, lanes=ALL_LANES, nrec=3, flips="sample", cuts="all
             dmgs.append({"mode": "insert_line", "index": idx, "bytes": g.hex()})
     for i in range(nrec):
         # bytes glued straight behind a record; every bit of every separating newline
-        for g in (b"\xff", b"\x8a", b"\xc3", b"x", b"\xe2\x82", b"\x00", b"\r"):
+        # (a CR LF glued behind a record - also behind the LAST one - makes it a DOS-terminated
+        # line, which every line reader of the pinned tree accepts)
+        for g in (b"\xff", b"\x8a", b"\xc3", b"x", b"\xe2\x82", b"\x00", b"\r", b"\r\n", b"\r\n\r\n", b"\r\r\n"):
             dmgs.append({"mode": "glue", "index": i, "bytes": g.hex()})
         for bit in range(8):
             dmgs.append({"mode": "flip_nl", "index": i, "bit": bit})
@@ -1225,6 +1233,7 @@ def index_damage_program(rng, lanes=ALL_LANES, nrec=3, flips="sample", cuts="all
             dmgs.append({"mode": "hash_field", "index": i, "keep": [0, 64], "pad": pad})
     for m_ in (512, 4096, 8192, 65536, 131072):
         dmgs.append({"mode": "pad_to", "multiple": m_})
+    dmgs.append({"mode": "dos"})
     for i in range(nrec):
         dmgs.append({"mode": "dup_line", "index": i})
         dmgs.append({"mode": "drop_nl", "index": i})
@@ -1351,7 +1360,20 @@ def cancel_program(rng, lanes=("Aa", "Ta")):
                 d = _mk_data(prog, rng, n)
                 a = "cw%d" % c
                 c += 1
-                cuts = [(0, n // 3), (n // 3, 2 * n // 3), (2 * n // 3, n)]
+                # chunk sizes: equal thirds, shrinking (the write after the cancelled one is strictly
+                # SHORTER than it - a result of the abandoned operation must not be reported for it),
+                # or growing
+                shape = rng.choice(["equal", "shrink", "shrink", "grow"])
+                if shape == "equal":
+                    cuts = [(0, n // 3), (n // 3, 2 * n // 3), (2 * n // 3, n)]
+                elif shape == "shrink":
+                    a1 = n - n // 3 - rng.randrange(1, 4)
+                    a2 = a1 + (n - a1) * 2 // 3
+                    cuts = [(0, a1), (a1, a2), (a2, n)]
+                else:
+                    a1 = rng.randrange(1, max(2, n // 10))
+                    a2 = a1 + rng.randrange(a1 + 1, max(a1 + 2, n // 3))
+                    cuts = [(0, a1), (a1, a2), (a2, n)]
                 which = {"first": 0, "middle": 1, "last": 2}[pat]
                 prog["steps"].append({"op": "open_writer", "lane": lane, "opts": {"algo": rng.choice(["sha256", "sha1", "sha512"])},
                                       "as": a, "plan": d, "via": "opts"})
